@@ -240,6 +240,79 @@ def run_print_retarget(order, switch_at):
     return None
 
 
+def run_print_contexts(order, split_at):
+    """The same stream fed (a) partly in the parent and partly in a forked child (a process that goes on after a fork, e.g. a
+    daemonising one), (b) from inside a running asyncio event loop. Printing is synchronous and in order in both."""
+    import os
+    from windpyutils.buffers import PrintBuffer, Buffer
+    want = "".join(f"<{s}>|" for s in range(len(order)))
+    # (a) fork in the middle
+    out = io.StringIO()
+    pb = PrintBuffer(out, end="|")
+    bf = Buffer()
+    emitted = []
+    for serial in order[:split_at]:
+        pb.print(serial, f"<{serial}>")
+        emitted.extend(bf(serial, serial))
+    r, w = os.pipe()
+    pid = os.fork()
+    if pid == 0:
+        msg = b""
+        try:
+            os.close(r)
+            for serial in order[split_at:]:
+                pb.print(serial, f"<{serial}>")
+                emitted.extend(bf(serial, serial))
+            got = (out.getvalue(), pb.waiting_for, len(pb), emitted, bf.waiting_for(), len(bf))
+            exp = (want, len(order), 0, list(range(len(order))), len(order), 0)
+            if got != exp:
+                msg = repr(got).encode()[:500]
+        except BaseException as e:
+            msg = ("raised " + repr(e)).encode()[:500]
+        finally:
+            try:
+                os.write(w, msg)
+            finally:
+                os._exit(0)
+    os.close(w)
+    data = b""
+    while True:
+        chunk = os.read(r, 4096)
+        if not chunk:
+            break
+        data += chunk
+    os.close(r)
+    os.waitpid(pid, 0)
+    if data:
+        return "fork-continuation", (f"order {_o(order)}: the first {split_at} arrivals in the parent, the rest in a forked child; the child ends "
+                                     f"with (printed, waiting_for, len, Buffer output, ...) = {data.decode(errors='replace')}, expected {want!r} and "
+                                     f"everything emitted")
+    # (b) inside a running event loop
+    import asyncio
+    out2 = io.StringIO()
+    pb2 = PrintBuffer(out2, end="|")
+    seen = []
+
+    async def feed():
+        for serial in order:
+            pb2.print(serial, f"<{serial}>")
+            seen.append(out2.getvalue())
+            await asyncio.sleep(0)
+    asyncio.run(feed())
+    arrived, k = set(), 0
+    for pos, serial in enumerate(order):
+        arrived.add(serial)
+        while k in arrived:
+            k += 1
+        exp = "".join(f"<{s}>|" for s in range(k))
+        if seen[pos] != exp:
+            return "print-order", (f"order {_o(order)} fed from a coroutine: right after print({serial}) the output is {seen[pos]!r}, "
+                                   f"expected {exp!r}")
+    if out2.getvalue() != want:
+        return "print-order", f"order {_o(order)} fed from a coroutine: final output {out2.getvalue()!r}, expected {want!r}"
+    return None
+
+
 def run_print_flush_gap(order, flush_at):
     """PrintBuffer with an intermediate flush() while a gap exists: flush prints what is held (ascending) and moves
     waiting_for past it (documented); items that arrive later are stored ('stores that value for later') and must come
@@ -424,6 +497,12 @@ def run_shard(spec):
                            {"what": "buffer", "order": order, "drains": sorted(drains), "chain": False})
             if len(order) >= 2:
                 res.seen(("b", tuple(order) if len(order) <= 12 else common.h64(order), tuple(sorted(drains))[:12]))
+        if 2 <= len(order) <= 6 and idx % 3 == 0:
+            bad = run_print_contexts(order, 1 + idx % (len(order) - 1))
+            res.evaluations += 2
+            res.count("streams_continued_in_a_forked_child_and_fed_from_a_coroutine")
+            if bad:
+                report(bad, {"what": "contexts", "order": order, "split_at": 1 + idx % (len(order) - 1)})
         if 2 <= len(order) <= 6:
             for fa in range(1, len(order)):
                 bad = run_print_retarget(order, fa)
@@ -473,6 +552,8 @@ def replay(doc):
         bad = run_buffer(c["order"], set(c["drains"]), c["chain"])
     elif c["what"] == "print-gap":
         bad = run_print_flush_gap(c["order"], c["flush_at"])
+    elif c["what"] == "contexts":
+        bad = run_print_contexts(c["order"], c["split_at"])
     elif c["what"] == "print-retarget":
         bad = run_print_retarget(c["order"], c["switch_at"])
     elif c["what"] == "buffer-falsy":
